@@ -331,7 +331,13 @@ type Ref struct {
 	Set func(Value)
 }
 
-type ErrVal struct{ Msg Str }
+// ErrVal is a non-nil error; Dyn optionally names its dynamic type (for type switches).
+type ErrVal struct {
+	Msg Str
+	Dyn string
+	// Concrete, when set, is the value a type switch binds for the dynamic type (e.g. a *fs.PathError model).
+	Concrete Value
+}
 type Nil struct{}
 
 // Opaque is a value nothing is known about; using it in an operation is undecidable.
